@@ -327,24 +327,7 @@ func (fx *FnExec) mergeResults(orig *Frame, base int, rs []mergeRes, J *ssa.Basi
 	st := &State{Heap: map[*Object]Value{}, Ghost: map[string]*Term{}}
 	st.PC = append([]*Term(nil), rs[0].st.PC[:base]...)
 	st.Assume(Or(conds...))
-	// quantified hypotheses: those of the first branch that the others share (pointer identity), conservatively
-	for _, q := range rs[0].st.Quants {
-		all := true
-		for _, r := range rs[1:] {
-			found := false
-			for _, q2 := range r.st.Quants {
-				if q2 == q {
-					found = true
-				}
-			}
-			if !found {
-				all = false
-			}
-		}
-		if all {
-			st.Quants = append(st.Quants, q)
-		}
-	}
+	st.Quants = mergeQuants(rs, conds)
 	// byte slices that point to different freshly allocated arrays in different branches (e.g. a buffer that was
 	// appended to in one branch only) are re-based onto one merged array so that the states can be joined
 	fx.unifySlices(rs, conds)
@@ -591,23 +574,7 @@ func (fx *FnExec) mergeStatesVals(base int, rs []mergeRes, val func(i int) Value
 	st := &State{Heap: map[*Object]Value{}, Ghost: map[string]*Term{}}
 	st.PC = append([]*Term(nil), rs[0].st.PC[:base]...)
 	st.Assume(Or(conds...))
-	for _, q := range rs[0].st.Quants {
-		all := true
-		for _, r := range rs[1:] {
-			found := false
-			for _, q2 := range r.st.Quants {
-				if q2 == q {
-					found = true
-				}
-			}
-			if !found {
-				all = false
-			}
-		}
-		if all {
-			st.Quants = append(st.Quants, q)
-		}
-	}
+	st.Quants = mergeQuants(rs, conds)
 	objs := map[*Object]bool{}
 	for _, r := range rs {
 		for o := range r.st.Heap {
@@ -691,4 +658,48 @@ func (fx *FnExec) mergeStatesVals(base int, rs []mergeRes, val func(i int) Value
 		return nil, nil, false
 	}
 	return st, mv, true
+}
+
+// mergeQuants: quantified hypotheses shared by all branches (pointer identity) are kept as they are; one that holds
+// on some branches only is kept under the disjunction of those branches' conditions.
+func mergeQuants(rs []mergeRes, conds []*Term) []*QFact {
+	var out []*QFact
+	seen := map[*QFact]bool{}
+	for _, r := range rs {
+		for _, q := range r.st.Quants {
+			if seen[q] {
+				continue
+			}
+			seen[q] = true
+			var gs []*Term
+			all := true
+			for j, r2 := range rs {
+				found := false
+				for _, q2 := range r2.st.Quants {
+					if q2 == q {
+						found = true
+						break
+					}
+				}
+				if found {
+					gs = append(gs, conds[j])
+				} else {
+					all = false
+				}
+			}
+			if all {
+				out = append(out, q)
+				continue
+			}
+			guard, inner := Or(gs...), q
+			out = append(out, &QFact{Inst: func(k *Term) *Term {
+				t := inner.Inst(k)
+				if t == nil {
+					return nil
+				}
+				return Implies(guard, t)
+			}})
+		}
+	}
+	return out
 }
